@@ -17,11 +17,19 @@ pub struct Violation {
     /// stable identification of the failure class: oracle + configuration class (+ first repo frame for panics)
     pub signature: String,
     pub detail: String,
+    /// keys merged into `plan.extra` of the replay plan (e.g. the one cut point of an enumeration that failed)
+    #[serde(default)]
+    pub patch: Option<serde_json::Value>,
 }
 
 impl Violation {
     pub fn new(property: &str, signature: String, detail: String) -> Self {
-        Violation { property: property.to_owned(), signature, detail }
+        Violation { property: property.to_owned(), signature, detail, patch: None }
+    }
+
+    pub fn with_patch(mut self, patch: serde_json::Value) -> Self {
+        self.patch = Some(patch);
+        self
     }
 }
 
@@ -50,6 +58,10 @@ pub struct Outcome {
     pub case_hash: u64,
     pub probes: BTreeMap<String, u64>,
     pub panics: Vec<PanicRec>,
+    /// a plan may stand for a whole enumeration executed inside one `execute` (e.g. all cut points of a stream):
+    /// the additional evaluations and their case hashes
+    pub extra_evaluations: u64,
+    pub extra_cases: Vec<u64>,
 }
 
 pub fn world_stats(w: &World) -> BTreeMap<String, u64> {
@@ -105,7 +117,11 @@ pub struct Agg {
 
 impl Agg {
     pub fn add(&mut self, plan: &Plan, cell: &str, o: Outcome, keep_hashes: bool) {
-        self.evaluations += 1;
+        self.evaluations += 1 + o.extra_evaluations;
+        self.nontrivial += o.extra_cases.len() as u64;
+        for h in &o.extra_cases {
+            self.distinct_cases.insert(*h);
+        }
         if o.nontrivial {
             self.nontrivial += 1;
             self.distinct_cases.insert(o.case_hash);
@@ -128,7 +144,16 @@ impl Agg {
             if let Some(r) = self.violations.iter_mut().find(|r| r.signature == v.signature) {
                 r.count += 1;
             } else {
-                self.violations.push(ViolationRec { property: v.property, signature: v.signature, detail: v.detail, count: 1, plan: plan.clone(), ev_hash: o.ev_hash });
+                let mut p = plan.clone();
+                if let Some(serde_json::Value::Object(patch)) = v.patch {
+                    if !p.extra.is_object() {
+                        p.extra = serde_json::json!({});
+                    }
+                    for (k, val) in patch {
+                        p.extra[k] = val;
+                    }
+                }
+                self.violations.push(ViolationRec { property: v.property, signature: v.signature, detail: v.detail, count: 1, plan: p, ev_hash: o.ev_hash });
             }
         }
     }
